@@ -302,6 +302,13 @@ func (c *Conn) Take() []byte {
 	return b
 }
 
+// Peek returns a copy of what the server wrote so far without consuming it.
+func (c *Conn) Peek() []byte {
+	c.mu.Lock()
+	defer c.mu.Unlock()
+	return append([]byte{}, c.out...)
+}
+
 // TakeN removes at most n bytes the server wrote (a client draining slowly).
 func (c *Conn) TakeN(n int) []byte {
 	c.mu.Lock()
